@@ -151,7 +151,7 @@ def run_case(ctx, index: int, *, salt="hist"):
 
 
 async def search(ctx):
-    n = ctx.budget(170, 4000)
+    n = ctx.budget(160, 3000)
     st = ctx.stats
     for i in range(n):
         found, summary, hist = await asyncio.to_thread(run_case, ctx, i)
